@@ -62,6 +62,12 @@ def gen_lens(rng, npop, glob):
     data = lc.data_kwargs(rng, lt)
     kw = dict(z_lens=rng.uniform(0.2, 0.8), z_source=rng.uniform(1.0, 2.5), likelihood_type=lt, name="L%d" % rng.randrange(10 ** 6),
               mst_ifu=rng.random() < 0.3, lambda_scaling_property=rng.choice([0.0, rng.uniform(-0.5, 0.5)]))
+    # the name of a lens is optional (and need not be unique: several data sets of one system carry the same name)
+    nm = int(kw["name"][1:]) % 5
+    if nm == 0:
+        del kw["name"]
+    elif nm == 1:
+        kw["name"] = "lens"
     if lt == "DSPL":
         kw["z_source2"] = kw["z_source"] + rng.uniform(0.3, 1.0)
         data.pop("z_source2", None)
@@ -120,6 +126,12 @@ def gen_case(rng, mixed=False, same_system=False):
         if rng.random() < 0.5:
             head.append(draw(lambda sl: bool(sl) and "gamma_pl" in sl))
         lenses = head + lenses[:2]
+        # the slope lenses of this sample carry no name at all / all the same name (names are optional and need not be unique)
+        for kw_, _, _ in head:
+            if len(lenses) % 2 == 0:
+                kw_.pop("name", None)
+            else:
+                kw_["name"] = "system"
     if same_system or (len(lenses) >= 2 and rng.random() < 0.25):
         # one lens system entering with several data sets (double source plane + time delays + kinematics …): the entries
         # share z_lens and z_source exactly; each keeps its own data
